@@ -89,6 +89,22 @@ theorem append_changes_only_last_chunk (r : Roll σ) (p : Params) (hp : WFp p) (
       (chunksSpec r p a).dropLast ++ chunksSpec r p ((chunksSpec r p a).getLast?.getD [] ++ t) :=
   chunksSpec_append r p hp.1 a t
 
+/-- (0) Every parameter set the iterator accepts (`ChunkIter::new` runs `check_rabin_params` for every file, also when
+the stored configuration bypassed the `config` command) satisfies `WFp`: the theorems above apply to every accepted
+parameter set, and a set with `max < min`, `min = 0` or a non-power-of-two average is refused. -/
+theorem accepted_params_are_wf (avg mn mx : Nat) (mask : UInt64) (h : checkRabinParams avg mn mx = true) :
+    WFp { min := mn, max := mx, mask := mask } := by
+  simp only [checkRabinParams, Bool.and_eq_true, bne_iff_ne, Bool.not_eq_true', decide_eq_false_iff_not] at h
+  obtain ⟨⟨⟨_, h2⟩, h3⟩, h4⟩ := h
+  exact ⟨Nat.pos_of_ne_zero h2, by simp only at *; omega⟩
+
+/-- (0') … and the refusal is exact: a power-of-two average with `0 < min ≤ avg ≤ max` is accepted. -/
+theorem wf_params_with_pow2_avg_accepted (avg mn mx : Nat) (hp : isPow2 avg = true) (h1 : 0 < mn) (h2 : mn ≤ avg)
+    (h3 : avg ≤ mx) : checkRabinParams avg mn mx = true := by
+  simp only [checkRabinParams, hp, Bool.true_and, Bool.and_eq_true, bne_iff_ne, Bool.not_eq_true',
+    decide_eq_false_iff_not]
+  exact ⟨⟨by omega, by omega⟩, by omega⟩
+
 /-- (6) Fixed-size chunker: refinement, lossless, all chunks but the last have exactly `size` bytes. -/
 theorem fixed_refines_spec (size : Nat) (hs : 0 < size) (input : Bytes) :
     fixedRun size (input.length + 2) { rest := input, finished := false } = fixedSpec size input :=
